@@ -28,7 +28,14 @@ import (
 
 var recReady = stats.New("ready_order", "generated raft.Ready values (hard state changes, 0-4 new entries, a committed range before / overlapping / equal to the new entries, 0-4 outgoing messages of the append / vote / heartbeat families, soft state making the node leader, follower or leaving it unchanged) through the REAL raftNode.processReady with a recording WAL and transport. Oracle: unless the Ready makes the node leader, no message is handed to the transport before the WAL save of that Ready; committed entries that the same Ready still has to write are not in the apply queue before the save. non-trivial = the Ready has something to save AND (messages to send as a non-leader OR committed entries that overlap the unsaved ones)")
 
+type quietLogger struct{}
+
+func (quietLogger) Output(int, string) error        { return nil }
+func (quietLogger) OutputErr(int, string) error     { return nil }
+func (quietLogger) OutputWarning(int, string) error { return nil }
+
 func TestReadyOrder(t *testing.T) {
+	node.SetLogger(0, quietLogger{}) // processReady logs every vote response and leader change
 	rapid.Check(t, func(t *rapid.T) {
 		term := uint64(rapid.IntRange(1, 5).Draw(t, "term"))
 		last := uint64(rapid.IntRange(0, 6).Draw(t, "stableLast")) // last index already on disk
@@ -62,7 +69,11 @@ func TestReadyOrder(t *testing.T) {
 			ty := rapid.SampledFrom([]pb.MessageType{pb.MsgAppResp, pb.MsgAppResp, pb.MsgVoteResp, pb.MsgPreVoteResp, pb.MsgHeartbeatResp, pb.MsgApp, pb.MsgVote, pb.MsgHeartbeat}).Draw(t, "mtype")
 			rd.Messages = append(rd.Messages, pb.Message{Type: ty, From: 1, To: uint64(rapid.IntRange(2, 3).Draw(t, "to")), Term: term, Index: last + uint64(nNew)})
 		}
-		ev := node.VerifProcessReady(rd)
+		var stable []pb.Entry
+		for i := uint64(1); i <= last; i++ {
+			stable = append(stable, pb.Entry{Term: term, Index: i, Type: pb.EntryNormal, Data: []byte(fmt.Sprintf("e%d", i))})
+		}
+		ev := node.VerifProcessReady(rd, stable)
 		var tl []string
 		saved := false
 		mustSave := !raft.IsEmptyHardState(rd.HardState) || len(rd.Entries) > 0
